@@ -77,7 +77,13 @@ func (l *listener) Listen(ctx context.Context, onMessage func(msg message) error
 
 		return nil
 	})
-	defer func() { _ = eg.Wait() }()
+	defer func() {
+		// Deferred calls run last-in-first-out, so cancel explicitly before
+		// waiting: otherwise returning a read error while the parent context
+		// is still active would wait forever for the interrupt goroutine.
+		cancel()
+		_ = eg.Wait()
+	}()
 
 	for {
 		// Receive and pass incoming NDP messages to the caller.
